@@ -5,7 +5,7 @@
 cd "$(dirname "${BASH_SOURCE[0]}")/.."
 for d in seeded/${1:-C*}; do
   [ -f "$d/patch.diff" ] || continue
-  prop=$(python3 -c "import json;print(json.load(open('$d/meta.json'))['breaks_property'])")
+  prop=$(python3 -c "import json;m=json.load(open('$d/meta.json'));print(m.get('regress_with',m['breaks_property']))")
   out=$(REPLAY=0 tools/runmutant.sh "$d/patch.diff" $prop 2>&1 | grep -v '^error:' | tail -1)
   echo "$(basename $d): $out"
 done
